@@ -240,22 +240,24 @@ def to_model(e):
 def to_cpp(e, bound=(), ss=()):
     """bound: tuple of C++ variable names, innermost first; ss: names of the pointers to the stop sources of the
     enclosing let_value_with_stop_source operations, outermost first"""
-    return _cpp(e, bound, ss)
+    return _cpp(e, bound, ss, None)
 
 
-def _cpp(e, bound, ss):
-    def to_cpp(x, b=bound):
-        return _cpp(x, b, ss)
+def _cpp(e, bound, ss, watch=None):
+    """watch: name of the pointer to the payload bound by the innermost enclosing let_value successor; the leaves of the
+    successor expression refer to it (C02: the successor operation must be destroyed before the bound value)"""
+    def to_cpp(x, b=bound, w=None):
+        return _cpp(x, b, ss, w or watch)
     k = e[0]
     if k == "stopif": return "k2v2::stopif()"
     if k == "leafc": return "k2v2::leafc{%d}" % e[1]
     if k == "alloc": return "unifex::allocate(%s)" % to_cpp(e[1])
     if k == "walloc": return "k2v2::walloc(%s, %d)" % (to_cpp(e[2]), e[1])
-    if k == "leafr": return "k2v2::leafr(%d, %s)" % (e[1], ss[e[2]])
+    if k == "leafr": return "k2v2::leafr(%d, %s%s)" % (e[1], ss[e[2]], ", " + watch if watch else "")
     if k == "jfrom": return "k2v2::jfrom(%s)" % k2.cpp_fn(e[1])
     if k == "lvss":
         p = "p%d" % len(ss)
-        return "k2v2::lvss(%s, [=](auto* %s) { return %s; })" % ("true" if e[1] else "false", p, _cpp(e[2], bound, ss + (p,)))
+        return "k2v2::lvss(%s, [=](auto* %s) { return %s; })" % ("true" if e[1] else "false", p, _cpp(e[2], bound, ss + (p,), watch))
     if k == "repeat":
         bits = e[1][1:]
         val = sum(1 << i for i, c in enumerate(bits) if c == "1")
@@ -265,8 +267,8 @@ def _cpp(e, bound, ss):
     if k == "retry":
         x = "x%d" % len(bound)
         return "k2v2::retry(%s, %d, [=](int %s) { return %s; })" % (to_cpp(e[2]), e[1], x, to_cpp(e[3], (x,) + bound))
-    if k == "leaf": return "k2v2::leaf{%d,false}" % e[1]
-    if k == "leafn": return "k2v2::leaf{%d,true}" % e[1]
+    if k == "leaf": return "k2v2::leaf{%d,false%s}" % (e[1], "," + watch if watch else "")
+    if k == "leafn": return "k2v2::leaf{%d,true%s}" % (e[1], "," + watch if watch else "")
     if k == "just": return "k2v2::just(%d)" % e[1]
     if k == "jerr": return "k2v2::inl{'e',%d}" % e[1]
     if k == "jdone": return "k2v2::inl{'d',0}"
@@ -287,7 +289,8 @@ def _cpp(e, bound, ss):
     a = to_cpp(e[1], bound)
     if k == "letv":
         x = "x%d" % len(bound)
-        return "unifex::let_value(%s, [=](k2v2::payload& p%s) { int %s = p%s.v; return %s; })" % (a, x, x, x, to_cpp(e[2], (x,) + bound))
+        return "unifex::let_value(%s, [=](k2v2::payload& p%s) { int %s = p%s.v; const k2v2::payload* w%s = &p%s; return %s; })" % (
+            a, x, x, x, x, x, to_cpp(e[2], (x,) + bound, "w" + x))
     if k == "lete":
         x = "x%d" % len(bound)
         return "unifex::let_error(%s, [=](auto&& ep%s) { int %s = k2::code_of(ep%s); return %s; })" % (
@@ -365,7 +368,7 @@ def emit_tu(cases):
 
 # ------------------------------------------------------------------------------------------ comparison
 # implementation-only markers: they feed the monitors, the model does not predict them
-IMPL_ONLY = ("fin ", "plive ", "blive ", "ctor ", "cthrow ", "dtor_ns ", "sdtor_ns ")
+IMPL_ONLY = ("fin ", "plive ", "blive ", "ctor ", "cthrow ", "dtor_ns ", "sdtor_ns ", "dtor_watch_dead ", "start_watch_dead ")
 
 
 def allocs_first(body):
@@ -442,6 +445,9 @@ def monitor_ctx(e, evs):
     return walk(e)
 
 
+BOUND_DEAD = "C02: bound value destroyed before the successor operation that refers to it"
+
+
 def monitor(trace, e=None):
     """the properties themselves on an implementation trace.
     C01 at most one root completion; C04 no live registration on the root token at completion;
@@ -450,6 +456,9 @@ def monitor(trace, e=None):
     destruction; nothing but destruction after the root completed."""
     body, _, tail = trace.partition(" # ")
     evs = [x for x in body.split(";") if x and x != "|"]
+    for x in evs:
+        if x.startswith("dtor_watch_dead ") or x.startswith("start_watch_dead "):
+            return BOUND_DEAD + " (leaf %s, %s)" % (x.split()[1], "destructor" if x.startswith("dtor") else "start")
     roots = [x for x in evs if x.startswith("root ") ]
     if len(roots) > 1:
         return "C01: %d root completions" % len(roots)
@@ -742,7 +751,9 @@ def run_k2v2(chk, n_tus, cases_per_tu, scripts_per_case, size_range=(2, 8), cfg=
                    "replay": "echo '%s' | %s" % (il, exe)}
             rp = chk.replay_file("k2v2_%s" % hashlib.sha256((to_model(e) + sc).encode()).hexdigest()[:10], rec)
             kinds = "+".join(sorted(set(kinds_of(e)) - {"leaf", "leafn", "just", "jerr", "jdone", "var"} - set(FNS)))
-            if mon:
+            if mon.startswith(BOUND_DEAD):
+                chk.violation("k2v2/monitor/C02/bound-value-dead", rp, text="%s | %s | %s" % (to_model(e), sc, mon))
+            elif mon:
                 chk.violation("k2v2/monitor/%s/%s" % (mon.split(":")[0], kinds), rp, text="%s | %s | %s" % (to_model(e), sc, mon))
             else:
                 chk.violation("k2v2/corr/%s" % kinds, rp, no_input=True,
